@@ -308,7 +308,7 @@ def eval_case(ctx, case):
 # ------------------------------------------------------------------------------------------- workload
 
 TK = ["block_para", "block_heading", "attr_para", "attr_heading", "attr_span", "dir_title", "dir_plain", "slug"]
-TITLES = ["Alpha Beta", "alpha beta", "Gamma", "Gamma", "Gamma 1", "gamma-1", "Delta!", "x `code` y", "Ünï cödé"]
+TITLES = ["Alpha Beta", "alpha beta", "Gamma", "Gamma", "Gamma 1", "gamma-1", "Delta!", "x `code` y", "Ünï cödé", "Straße", "Οδός Ερμής", "ﬁne ligature", "ÉCOLE Élan", "日本 語", "ǅungla"]  # lower-casing is not case-folding
 
 
 def make_case(R):
